@@ -41,7 +41,43 @@ except Exception:  # pylint: disable=broad-except
   pass
 
 
+class IntColor(enum.IntEnum):
+  CYAN = 1
+  PINK = 2
+
+
+class StrColor(str, enum.Enum):
+  TEAL = "teal"
+  PLUM = "plum"
+
+
+class NewStrColor(enum.StrEnum):
+  GOLD = "gold"
+
+
+class MyStr(str):
+  pass
+
+
+class MyInt(int):
+  pass
+
+
+class MyFloat(float):
+  pass
+
+
+for _c in (IntColor, StrColor, NewStrColor, MyStr, MyInt, MyFloat):
+  _c.__module__ = "harness.c09"
+
+
 def gen_leaf(rng):
+  r = rng.random()
+  if r < 0.06:
+    # leaves whose class mixes in / subclasses a JSON primitive: members must come back as members,
+    # subclass instances as instances of the subclass (or dump_json must raise)
+    return rng.choice([IntColor.CYAN, IntColor.PINK, StrColor.TEAL, StrColor.PLUM, NewStrColor.GOLD,
+                       MyStr("sub"), MyInt(5), MyFloat(1.5)])
   r = rng.random()
   if r < 0.2:
     return rng.choice([0, 1, -1, 2**31, -2**63, 10**30, 255, 7])
@@ -127,10 +163,10 @@ def deep_canon(root):
       return ("NO_VALUE",)
     if x is SENTINEL:
       return ("SENTINEL",)
-    if isinstance(x, (bool, int, float, str, bytes, type(None))):
-      return leaf(x)
     if isinstance(x, enum.Enum):
       return ("enum", type(x).__name__, x.name)
+    if isinstance(x, (bool, int, float, str, bytes, type(None))):
+      return leaf(x)
     if isinstance(x, type) or (callable(x) and hasattr(x, "__qualname__")
                                and not isinstance(x, config_lib.Buildable)):
       return ("sym", getattr(x, "__module__", ""), x.__qualname__)
@@ -235,6 +271,46 @@ def load_recorded(text, policy):
     importlib.import_module = orig
 
 
+def document_pyrefs(doc):
+  """(module, name) of every pyref in a document (independent walk over the JSON)."""
+  out = []
+  def go(x):
+    if isinstance(x, dict):
+      if x.get("type") == "pyref" and isinstance(x.get("module"), str) and isinstance(x.get("name"), str):
+        out.append((x["module"], x["name"]))
+      for v in x.values():
+        go(v)
+    elif isinstance(x, list):
+      for v in x:
+        go(v)
+  go(doc)
+  return out
+
+
+def check_pyrefs_approved(policy, doc, problems):
+  asked = {(ev[1], ev[2]) for ev in policy.events if ev[0] == "import?" and ev[3]}
+  for m, n in document_pyrefs(doc):
+    if (m, n) not in asked:
+      problems.append(f"symbol {m}:{n} of the document was resolved without approval by the supplied policy")
+      return
+
+
+def denied_reload(rng, text, problems, res):
+  """The same document under a policy that rejects one of its symbols must be refused (the earlier,
+  permissive load must not have any lasting effect)."""
+  refs = sorted(set(document_pyrefs(json.loads(text))))
+  if not refs:
+    return
+  deny = rng.choice(refs)
+  strict = RecordingPolicy(deny={deny})
+  outcome, _ = load_recorded(text, strict)
+  res.count("denied-reload")
+  if outcome[0] == "ok":
+    problems.append(f"a policy rejecting {deny[0]}:{deny[1]} did not stop load_json from resolving it")
+  elif not isinstance(outcome[1], serialization.PyrefPolicyError):
+    problems.append(f"a rejected symbol gave {type(outcome[1]).__name__} instead of PyrefPolicyError")
+
+
 def check_policy_trace(policy, imported, problems):
   approved = set()
   for ev in policy.events:
@@ -288,6 +364,9 @@ def one_value(rng, res, intern, stream, label):
       except Exception as e:  # pylint: disable=broad-except
         problems.append(f"the reconstruction cannot be serialized again: {type(e).__name__}")
     check_policy_trace(policy, imported, problems)
+    check_pyrefs_approved(policy, json.loads(text), problems)
+    if rng.random() < 0.3:
+      denied_reload(rng, text, problems, res)
   for p in problems[:1]:
     res.failures.append(Failure(key, f"C09 {label}: {p}", replay))
   if len(pool) > 1:
